@@ -17,6 +17,8 @@ THEOREMS = [
     "add_pointwise", "add_missing_depth_is_zero", "neg_pointwise", "scale_pointwise", "div_pointwise",
     "div_by_zero_rejected", "sub_pointwise", "add_degree_mismatch_rejected", "expr_pointwise",
     "add_legacy_refuted", "add_first_ordinate_pointwise_partial", "add_variants_agree_on_wf",
+    "add_first_ordinate_pointwise", "add_pointwise_iff_ends_compatible", "ends_compatible_decidable",
+    "add_first_ordinate_total", "add_ends_incompatible_refuted",   # Proofs/LandArithEndsP.v: exact boundary of the Fixed sum
     "approx_add_pointwise", "approx_add_mismatch_rejected", "approx_neg_scale_div_pointwise",
     "approx_sub_pointwise", "snap_is_interp", "resample_is_linear_interpolation", "snap_defaults_are_min_max",
     "snap_succeeds", "lc_is_combination", "average_is_mean",
@@ -73,8 +75,8 @@ def _pow2_gaps(rng, total=None, n=None):
     return gaps
 
 
-def _cp_depth(rng, mode, x0=None, total=None, ends=(0.0, 0.0)):
-    n = rng.randint(1, 5)
+def _cp_depth(rng, mode, x0=None, total=None, ends=(0.0, 0.0), n=None):
+    n = rng.randint(1, 5) if n is None else n
     if mode == "exact":
         if x0 is None:
             x0 = rng.randint(-6, 6) / 2
@@ -126,6 +128,63 @@ def _nested_bars(rng, mode, k):
     return bars
 
 
+# ---- near-ties, offsets, scales (class "nearties") ------------------------------------------------------
+# Leaves are first drawn in unit coordinates so that breakpoints of DIFFERENT leaves coincide (exact mode: the
+# half-integer grid of the wf class; tol mode: a common pool of abscissae), then every leaf is moved by its own
+# tiny shift delta_j and all leaves by a common offset / scale:  x -> s*(off + x + delta_j),  y -> s*y.
+# Coincident breakpoints become NEAR-ties (relative gaps 1e-3 .. 1e-10), at offsets up to 1e5 and scales down to
+# 2^-30.  In exact mode everything stays dyadic with < 53 significant bits (off <= 2^12, delta >= 2^-24,
+# s a power of two), so the comparison remains exact and any fusing / snapping of close abscissae shows.
+def _near_pool(rng):
+    pool = []
+    while len(pool) < rng.randint(6, 10):
+        x = rng.uniform(-3, 5)
+        if all(abs(x - p) > 0.1 for p in pool):
+            pool.append(x)
+    return sorted(pool)
+
+
+def _near_leaf(rng, mode, pool):
+    if mode == "exact":
+        if rng.random() < 0.4:
+            return {"kind": "dgm", "dgm": _bars(rng, mode), "hom_deg": 0}
+        x0 = rng.choice([None, 0.0, 1.0])
+        return {"kind": "cp", "cp": [_cp_depth(rng, mode, x0=x0) for _ in range(rng.randint(1, 3))], "hom_deg": 0}
+    if rng.random() < 0.4:
+        bars = []
+        for _ in range(rng.randint(1, 4)):
+            b, d = sorted(rng.sample(pool, 2))
+            bars.append([b, d])
+        return {"kind": "dgm", "dgm": bars, "hom_deg": 0}
+    cp = []
+    for _ in range(rng.randint(1, 3)):
+        xs = sorted(rng.sample(pool, rng.randint(2, min(6, len(pool)))))
+        ys = [0.0] + [rng.uniform(-3, 3) for _ in xs[2:]] + [0.0]
+        cp.append([[x, y] for x, y in zip(xs, ys)])
+    return {"kind": "cp", "cp": cp, "hom_deg": 0}
+
+
+def _near_map(rng, mode, leaves):
+    if mode == "exact":
+        off = rng.choice([0.0, 0.0, 1024.0, 4096.0, -1024.0])
+        s = rng.choice([1.0, 1.0, 1.0, 2.0 ** -10, 2.0 ** -27, 2.0 ** -30, 2.0 ** 10])
+        deltas = [0.0] + [rng.choice([-1, 1]) * 2.0 ** -rng.choice([8, 12, 16, 17, 20, 24]) for _ in leaves[1:]]
+    else:
+        off = rng.choice([0.0, 1e3, 1e4, 1e5, -1e3, 12345.678])
+        s = 1.0
+        deltas = [0.0] + [rng.choice([-1, 1]) * 10 ** rng.uniform(-9, -5.2) * max(1.0, abs(off)) for _ in leaves[1:]]
+    rng.shuffle(deltas)
+    for l, dl in zip(leaves, deltas):
+        f = lambda x: float(s * (off + x + dl))
+        if l["kind"] == "dgm":
+            l["dgm"] = [[f(b), f(d)] for b, d in l["dgm"]]
+        else:
+            l["cp"] = [[[f(x), float(s * y)] for x, y in d] for d in l["cp"]]
+            for d in l["cp"]:
+                assert all(p[0] < q[0] for p, q in zip(d, d[1:]))
+        l["near"] = [off, s, dl]
+
+
 def _scalar(rng, mode, div=False):
     if mode == "exact":
         if div:
@@ -141,15 +200,26 @@ def _pick(rng, pool):
     return rng.choice(pool)
 
 
-def _gen_exact(rng, mode, cls):
+LONG_SIZES = ([33, 49, 50, 65, 70, 130], [49, 65, 130, 260, 520, 1030])   # breakpoints per depth: quick, thorough
+
+
+def _gen_exact(rng, mode, cls, big=False):
     leaves, live = [], []          # live: (index, deg)
     nl = rng.randint(2, 4)
     shared = None
     int_depths = rng.sample([1, 2, 3, 4], 4)
     if cls == "ends_nonzero":
         shared = (rng.randint(-4, 4) / 2 if mode == "exact" else rng.uniform(-2, 2), 4.0)
+    pool = _near_pool(rng) if cls == "nearties" else None
     for _ in range(nl):
-        if cls == "ends_nonzero":
+        if cls == "nearties":
+            leaves.append(_near_leaf(rng, mode, pool))
+        elif cls == "long":
+            # one or two depths with many breakpoints (just above typical block sizes)
+            ns = [rng.choice(LONG_SIZES[1] if big else LONG_SIZES[0]) for _ in range(rng.randint(1, 2))]
+            leaves.append({"kind": "cp", "cp": [_cp_depth(rng, mode, x0=rng.choice([None, 0.0, 1.0]), n=k) for k in ns],
+                           "hom_deg": 0})
+        elif cls == "ends_nonzero":
             nd = rng.randint(1, 3)
             cp = []
             for _ in range(nd):
@@ -187,10 +257,12 @@ def _gen_exact(rng, mode, cls):
                            "ints": rng.random() < 0.2})
     if cls == "errors":
         leaves.append({"kind": "cp", "cp": [_cp_depth(rng, mode)], "hom_deg": 1})
+    if cls == "nearties":
+        _near_map(rng, mode, leaves)
     for i, l in enumerate(leaves):
         live.append((i, l["hom_deg"]))
     steps = []
-    nsteps = rng.randint(6, 12)
+    nsteps = rng.randint(6, 12) if cls != "long" else rng.randint(3, 5)
     nobj = len(leaves)
     if cls == "lazy":
         # every lazy leaf enters + / - as its first use, in either operand position
@@ -237,8 +309,36 @@ def _is_pow2(x):
     return x > 0 and math.frexp(x)[0] == 0.5
 
 
-def _grid(rng, mode):
+BIG_GRIDS = {"exact": ([17, 33, 65, 129], [65, 129, 257, 513, 1025]),     # 2^k+1 nodes: the step stays a power of two
+             "tol": ([33, 49, 50, 65, 130], [65, 130, 260, 513, 1030])}
+
+
+def _near_grid(rng, mode, g):
+    """a grid that differs from g by a tiny amount in start, stop or both (still a DIFFERENT grid)"""
+    import math
+
+    def nudge(x):
+        k = rng.choice([0, 1, 2, 3])
+        if k == 0:
+            return math.nextafter(x, math.inf if rng.random() < 0.5 else -math.inf)
+        if mode == "exact":
+            return x + rng.choice([-1, 1]) * 2.0 ** -[0, 40, 30, 20][k]
+        return x + rng.choice([-1, 1]) * max(1.0, abs(x)) * [0, 1e-13, 1e-10, 1e-7][k]
+    w = rng.choice(["start", "stop", "both"])
+    g1 = (nudge(g[0]) if w != "stop" else g[0], nudge(g[1]) if w != "start" else g[1], g[2])
+    assert g1 != g and g1[0] < g1[1]
+    return g1
+
+
+def _grid(rng, mode, big=None):
     n = rng.choice([2, 3, 5, 5, 9])
+    if big is not None:
+        n = rng.choice(BIG_GRIDS[mode][1 if big else 0])
+        if mode == "exact":
+            start, h = rng.randint(-4, 4) / 2, rng.choice([0.25, 0.5, 1.0])
+            return (float(start), float(start + (n - 1) * h), n)
+        start = rng.uniform(-2, 2)
+        return (start, start + rng.uniform(0.5, 6), n)
     if mode == "exact":
         start = rng.randint(-4, 4) / 2
         h = rng.choice([0.25, 0.5, 1.0])
@@ -266,13 +366,16 @@ def _vals(rng, mode, n, zero_ends, nd=None, integer=False, fractional=False):
     return rows
 
 
-def _gen_approx(rng, mode, cls):
+def _gen_approx(rng, mode, cls, big=False):
     leaves, objs = [], []          # objs: (start, stop, n, deg) or None for a failed slot
     nl = rng.randint(2, 4)
-    g0 = _grid(rng, mode)
+    g0 = _grid(rng, mode, big=big if cls == "biggrid" else None)
     depth_counts = rng.sample([1, 2, 3, 4], 4)
     for li in range(nl):
         g = g0 if (cls in ("samegrid", "dtypes") or rng.random() < 0.5) else _grid(rng, mode)
+        if cls == "neargrid":
+            # the same grid or one that differs from it by a few ulps .. 1e-7 relative (must still be rejected)
+            g = g0 if (li == 0 or rng.random() < 0.4) else _near_grid(rng, mode, g0)
         deg = 1 if (cls == "errors" and rng.random() < 0.25) else 0
         if cls == "lazy":
             while g[2] < (3 if mode == "exact" else 4):
@@ -286,7 +389,7 @@ def _gen_approx(rng, mode, cls):
             leaves.append({"kind": "vals", "dtype": dt, "start": g[0], "stop": g[1], "num_steps": g[2], "hom_deg": 0,
                            "values": _vals(rng, mode, g[2], False, nd=depth_counts[li], integer=(dt == "int64"),
                                            fractional=True)})
-        elif (cls == "lazy" or rng.random() < 0.35) and g[2] >= (3 if mode == "exact" else 4):
+        elif (cls == "lazy" or rng.random() < 0.35) and cls != "neargrid" and g[2] >= (3 if mode == "exact" else 4):
             # bars inside the grid so that values is not the 'empty' array (that case is C08's)
             if mode == "exact":
                 h = (g[1] - g[0]) / (g[2] - 1)
@@ -310,7 +413,7 @@ def _gen_approx(rng, mode, cls):
                            "start": g[0], "stop": g[1], "num_steps": g[2], "hom_deg": deg})
         objs.append((g[0], g[1], g[2], deg))
     steps = []
-    nsteps = rng.randint(6, 12)
+    nsteps = rng.randint(6, 12) if cls != "biggrid" else rng.randint(3, 5)
 
     def liveidx():
         return [i for i, o in enumerate(objs) if o is not None]
@@ -328,7 +431,7 @@ def _gen_approx(rng, mode, cls):
     for _ in range(nsteps - len(steps)):
         live = liveidx()
         r = rng.random()
-        if cls == "errors" and r < 0.3:
+        if cls in ("errors", "neargrid") and r < 0.3:
             a = _pick(rng, live)
             others = [i for i in live if objs[i] != objs[a]]
             if others:
@@ -340,7 +443,7 @@ def _gen_approx(rng, mode, cls):
             objs.append(None)
             continue
         ops = ["add", "add", "sub", "neg", "mul", "rmul", "div"]
-        if cls not in ("samegrid", "dtypes"):
+        if cls not in ("samegrid", "dtypes", "neargrid"):
             ops += ["snap", "snap", "lc", "lc", "avg"]
         op = rng.choice(ops)
         a = _pick(rng, live)
@@ -401,17 +504,24 @@ def _gen_approx(rng, mode, cls):
 
 def generate(rng, tier):
     n = 64 if tier == "quick" else 1280
+    big = tier != "quick"
     plan = ([("exact", "exact", "wf")] * 4 + [("exact", "tol", "wf")] * 2 + [("exact", "exact", "errors")]
             + [("exact", "exact", "ends_nonzero")] + [("exact", "tol", "ends_nonzero")]
             + [("approx", "exact", "samegrid")] * 2 + [("approx", "exact", "mixed")] * 3
             + [("approx", "tol", "mixed")] * 2 + [("approx", "exact", "errors")] + [("approx", "tol", "errors")]
             + [("approx", "exact", "dtypes")] * 2 + [("approx", "tol", "dtypes")]
             + [("exact", "exact", "ints")] + [("exact", "tol", "ints")]
-            + [("exact", "exact", "lazy")] * 2 + [("exact", "tol", "lazy")] + [("approx", "exact", "lazy")])
+            + [("exact", "exact", "lazy")] * 2 + [("exact", "tol", "lazy")] + [("approx", "exact", "lazy")]
+            + [("exact", "exact", "nearties")] * 2 + [("exact", "tol", "nearties")]
+            + [("approx", "exact", "neargrid")] + [("approx", "tol", "neargrid")])
+    # size classes: few and short histories (they are the expensive ones)
+    sizes = [("exact", "exact", "long"), ("approx", "exact", "biggrid"), ("exact", "tol", "long"), ("approx", "tol", "biggrid")]
     cases = []
-    for i in range(n * len(plan) // 8):
+    for i in range(n * 27 // 8):
         fam, mode, cls = plan[i % len(plan)]
-        cases.append(_gen_exact(rng, mode, cls) if fam == "exact" else _gen_approx(rng, mode, cls))
+        if i % 36 == 35:
+            fam, mode, cls = sizes[(i // 36) % len(sizes)]
+        cases.append(_gen_exact(rng, mode, cls, big) if fam == "exact" else _gen_approx(rng, mode, cls, big))
     return cases
 
 
@@ -740,10 +850,11 @@ def _interpQ(xp, fp, x):
         return fp[0]
     if x >= xp[-1]:
         return fp[-1]
-    for j in range(len(xp) - 1):
-        if xp[j] <= x <= xp[j + 1]:
-            return fp[j] + (fp[j + 1] - fp[j]) * (x - xp[j]) / (xp[j + 1] - xp[j])
-    raise SpecError("interp")
+    import bisect
+    j = bisect.bisect_right(xp, x) - 1          # xp[j] <= x < xp[j+1]   (xp strictly increasing, xp[0] < x < xp[-1])
+    if not (0 <= j < len(xp) - 1 and xp[j] <= x <= xp[j + 1]):
+        raise SpecError("interp")
+    return fp[j] + (fp[j + 1] - fp[j]) * (x - xp[j]) / (xp[j + 1] - xp[j])
 
 
 class _A:
